@@ -79,6 +79,38 @@ Definition sx_edge_result (valid : bytes -> bool) (sat : N -> bytes -> bytes -> 
   | OutOfFuel => SL [SB sym_fuel]
   end.
 
+(* several guarded dependencies behind one root: the resolution fails when any marker fails,
+   otherwise every edge is present exactly when its own marker holds for its own extras *)
+Definition sym_edges : bytes := [101;100;103;101;115].
+
+Fixpoint multi_root (valid : bytes -> bool) (sat : N -> bytes -> bytes -> res bool)
+    (items : list sx) : option (res (list bool)) :=
+  match items with
+  | [] => Some (Ok [])
+  | SL [SB raw; SL ex] :: rest =>
+      match decode_bytes_list ex, multi_root valid sat rest with
+      | Some extras, Some tail =>
+          let attr := match extras with [] => None | _ => Some (join_with 44 extras) end in
+          Some (match marker_result valid sat raw (requested_extras attr) with
+                | Ok b => match tail with Ok bs => Ok (b :: bs) | e => e end
+                | Err e => match tail with Panic p => Panic p | OutOfFuel => OutOfFuel | _ => Err e end
+                | Panic p => Panic p
+                | OutOfFuel => OutOfFuel
+                end)
+      | _, _ => None
+      end
+  | _ => None
+  end.
+
+Definition sx_multi_root (r : option (res (list bool))) : sx :=
+  match r with
+  | None => badcase
+  | Some (Ok bs) => SL (SB sym_edges :: map sx_bool bs)
+  | Some (Err _) => SL [SB sym_err]
+  | Some (Panic p) => if p =? PMissingOracle then SB sym_oom else SL [SB sym_panic]
+  | Some OutOfFuel => SL [SB sym_fuel]
+  end.
+
 Definition sx_dependency (r : res dependency) : sx :=
   sx_res (fun d => SL [SB (d_name d); SB (d_extras d); SB (d_constraint d); SB (d_env d)]) r.
 (* the Go side prints ("ok" name extras constraint env): flatten *)
@@ -227,6 +259,14 @@ Definition run_Pep508 (kind : bytes) (a : sx) : option sx :=
               | Some extras => sx_edge_result (lookup_valid vt) (lookup_sat st) raw extras
               | None => badcase
               end
+          | _ => badcase end)
+  else if kind_is kind [109;97;114;107;101;114;95;109;117;108;116;105] (* marker_multi *) then
+    Some (match a with
+          | SL [SL roots; SL vt; SL st] =>
+              SL (map (fun r => match r with
+                                | SL items => sx_multi_root (multi_root (lookup_valid vt) (lookup_sat st) items)
+                                | _ => badcase
+                                end) roots)
           | _ => badcase end)
   else if kind_is kind [115;112;101;99;95;112;114;105;110;116] (* spec_print *) then
     (* (tree wt) -> printed marker *)
